@@ -163,7 +163,9 @@ theorem slol_replayGo (s : BSt) (l : List Stmt) : SLOL s (replayRing.go s l).1 :
     unfold replayRing.go
     simp only
     split
-    · exact slol_dispatch s x
+    · split
+      · exact ((slol_dispatch s x).trans (SLOL.emit _ _)).trans (ih _)
+      · exact slol_dispatch s x
     · exact (slol_dispatch s x).trans (ih _)
 
 theorem slol_replayRing (s : BSt) (i : Nat) : SLOL s (replayRing s i).1 := by
